@@ -94,6 +94,15 @@ func (s *sys) init() {
 		i1, i2 = r1, r2
 	case 1:
 		i1, i2 = iterable.WrapIntSlice(append([]int{}, c.a...)), iterable.WrapIntSlice(append([]int{}, c.b...))
+	case 6:
+		// an empty sequence handed over as a nil slice is an empty, resettable sequence like any other
+		nilIfEmpty := func(x []int) []int {
+			if len(x) == 0 {
+				return nil
+			}
+			return append([]int{}, x...)
+		}
+		i1, i2 = iterable.WrapIntSlice(nilIfEmpty(c.a)), iterable.WrapIntSlice(nilIfEmpty(c.b))
 	case 2:
 		r1, r2 := &rsrc{src{s: c.a}}, &src{s: c.b}
 		s.s1, s.s2 = &r1.src, r2
@@ -223,9 +232,12 @@ func main() {
 	for _, a := range ss {
 		for _, b := range ss {
 			for sel := range selectors {
-				for kind := 0; kind < 6; kind++ {
+				for kind := 0; kind < 7; kind++ {
 					if kind >= 1 && (len(a) > 2 || len(b) > 2) && !run.Thorough() {
 						continue
+					}
+					if kind == 6 && len(a) > 0 && len(b) > 0 {
+						continue // differs from kind 1 only for an empty input
 					}
 					c := cfg{a, b, sel, kind}
 					sp := bfs.Spec[byte]{
@@ -265,6 +277,6 @@ done:
 	run.Finish(ev.Coverage{
 		"states": states, "transitions": trans, "traces_validated_against_impl": trans, "samples": samples.List,
 		"exhaustive": fix, "fixpoint": fix, "configurations": cfgs,
-		"rule": fmt.Sprintf("for every pair of input sequences of length <= %d over {1,2,3} (sorted and unsorted), every selector in {<, <=, always-first, always-second, >} and every source kind (harness iterators, WrapIntSlice, first/second input not resettable, first/second input whose last element vanishes between HasNext and Next): BFS over all call patterns of {HasNext(x2), Next, Reset, Init again on the used Mixer value} to a fixpoint of (mixer selector state, look-ahead flags, source positions, model positions); oracle: two-pointer reference merge, HasNext idempotent and equal to the ok of the following Next, Reset restarts", maxLen),
+		"rule": fmt.Sprintf("for every pair of input sequences of length <= %d over {1,2,3} (sorted and unsorted), every selector in {<, <=, always-first, always-second, >} and every source kind (harness iterators, WrapIntSlice over non-nil and nil slices, first/second input not resettable, first/second input whose last element vanishes between HasNext and Next): BFS over all call patterns of {HasNext(x2), Next, Reset, Init again on the used Mixer value} to a fixpoint of (mixer selector state, look-ahead flags, source positions, model positions); oracle: two-pointer reference merge, HasNext idempotent and equal to the ok of the following Next, Reset restarts", maxLen),
 	})
 }
